@@ -15,7 +15,11 @@ import (
 // subnets of maps no name refers to, are added to / changed in a data file;
 // no response to any client may change.
 
+// the foreign location differs from the real location "La" only in letter
+// case in half of the cases: location ids are opaque bytes
 const foreignLoc = "zz"
+
+var foreignLocs = []string{"zz", "LA", "lA", "L1"}
 
 type c04Case struct {
 	Base    *kit.World `json:"base"`
@@ -77,7 +81,7 @@ func c04Edits(t *rapid.T, w *kit.World, tag string) []kit.Line {
 			}
 		}
 		kind := rapid.SampledFrom([]byte("+++CC'Z&&.@")).Draw(t, tag+"-kind")
-		l := kit.Line{K: kind, Owner: owner, TTL: int64(rapid.SampledFrom([]int{-1, 0, 7}).Draw(t, tag+"-ttl")), Loc: foreignLoc, N: none5}
+		l := kit.Line{K: kind, Owner: owner, TTL: int64(rapid.SampledFrom([]int{-1, 0, 7}).Draw(t, tag+"-ttl")), Loc: rapid.SampledFrom(foreignLocs).Draw(t, tag+"-floc"), N: none5}
 		if strings.IndexByte("+C'", kind) >= 0 && rapid.IntRange(0, 2).Draw(t, tag+"-wild") == 0 {
 			l.Wild = true
 		}
@@ -107,7 +111,7 @@ func c04Edits(t *rapid.T, w *kit.World, tag string) []kit.Line {
 	for i := 0; i < ns; i++ {
 		cidr := rapid.SampledFrom([]string{"10.0.0.1/32", "10.0.0.0/8", "0.0.0.0/0", "::/0", "2001:db8::1/128", "2001:db8::/33", "10.0.0.2/31", "192.0.2.0/25"}).Draw(t, tag+"-cidr")
 		m := rapid.SampledFrom([]string{"\x00\x01", "zm", "\xff\xff"}).Draw(t, tag+"-map")
-		lo := rapid.SampledFrom([]string{"l1", "l2", foreignLoc}).Draw(t, tag+"-subloc")
+		lo := rapid.SampledFrom([]string{"l1", "l2", "La", foreignLoc}).Draw(t, tag+"-subloc")
 		dup := false
 		for _, x := range out {
 			if x.K == '%' && x.MapID == m && x.CIDR == cidr {
